@@ -11,6 +11,7 @@ CONSTANTS
   MaxPeer = 6
   MaxPush = 2
   Faults = {}
+  MaxFaults = 1
   RespShapes <- RS_sub12
   Abandon = FALSE
   MaxArr = 1
